@@ -1,4 +1,5 @@
 import AslModel.Lemmas.AddrLab
+import AslModel.Lemmas.AddrLabSim
 /-!
 # C10, label part — labels at pad bytes and construct-opening lines; Motorola-style reservations with several operands
 
@@ -19,12 +20,26 @@ What is a theorem:
 * for every operand list made of `?` and `[n]?` (`n ≥ 0`, any number of operands): `CodeLen` of BYT/FCB, ADR/FDB and DC.x is
   (number of cells) × (cell size), nothing is written, DC.x reserves one pad byte exactly when PADDING demands one
   (`C10_moto_res_byt_adr`, `C10_moto_res_dc`), which is the manual's rule (`C10_moto_res_model_eq_spec`).
-Only tested by the correspondence (not theorems): the whole-program agreement of MODEL and SPEC (constants, refused mixtures,
-structures, PHASE, nested constructs with labelled lines inside).
+* **whole programs** (`C10_lab_refine`, `C10_lab_refine_lines`, `C10_lab_refine_end`, `C10_lab_refine_labels`): for every program
+  of the statement language (labelled lines, constructs nested to any depth with any number of iterations and labelled lines
+  inside, PADDING, ORG, PHASE/DEPHASE, STRUCT/UNION bodies, constants, reservations, refused mixtures), from related states, the
+  MODEL run over the lines `Produce_Code` sees and the SPEC run over the expansion (`C10_lab_lines`: the expansion *is* those lines
+  with the opening lines taken out) agree in everything observable - same symbols in the same order with the SPEC's values, same
+  cells, same counters, same error lines (`ObsAgree`) - up to the line the manual does not cover (the SPEC's `unspecified`),
+  under the decidable precondition `Pre` (`Lemmas/AddrLabRefine.lean preLine`): every symbol defined once, constructs open
+  successfully, no data statement without data inside a structure, MODEL and SPEC agree on each Motorola data statement
+  (`motoAgree` - the statement-level agreement is C09's subject), and - only for a tree without the repair 0cba171,
+  `Cfg.fixStruct = false` - the repaired finding `struct-field-symbol-keeps-pad-offset` not hit.
+  Each condition is shown to be needed (`C10_lab_refine_hypothesis_needed_*`, `C10_lab_reset_keeps_pad_address`);
+* for programs whose Motorola data statements are reservations the data-statement condition is discharged by the statement-level
+  theorems: `C10_moto_res_refine` (precondition `PreRes`), `C10_moto_res_agree`;
+* `C10_lab_most_recent_label`: upstream's `t_padding` case `label7:` / `label8: nop`.
+Only tested by the correspondence (not theorems): that `Model/Data.lean` and `Spec/Data.lean` agree on data statements with
+constants (C09), i.e. the instances of `motoAgree` that `C10_moto_res_agree` does not cover.
 -/
 namespace AslModel.C10
 open AslModel.PFile (Byte b)
-open AslModel.Data AslModel.DataModel AslModel.AddrLab AslModel.AddrLabModel AslModel.AddrLabLemmas
+open AslModel.Data AslModel.DataModel AslModel.AddrLab AslModel.AddrLabModel AslModel.AddrLabLemmas AslModel.AddrLabRefine
 
 /-! ## construct-opening lines -/
 
@@ -213,5 +228,208 @@ theorem C10_moto_res_model_eq_spec (c : MCfg) (big : Bool) (pc : Nat) (st : Stmt
     · simp only [padBefore]
       cases c.padding <;> cases (pc % 2 == 1) <;> cases decide (e.bytes ≠ 1) <;> simp
     · cases (pc % 2 == 1 && c.padding && decide (e.bytes ≠ 1)) <;> simp
+
+/-! ## whole programs
+
+Full statement (task): `Pre c big s prog → observable (MODEL run over flatM 0 prog) = observable (SPEC run over expandS 0 prog)`.
+It is proved as stated, with "=" spelled out as `ObsAgree` (the SPEC leaves some label values open - `none` -, which no equation
+can express) and with the SPEC's right to stop made explicit: the MODEL is run over the lines up to the one the SPEC stops at. -/
+
+/-- **MODEL refines SPEC, line lists.**  `ls`: any list of lines as `Produce_Code` sees them (opening lines of constructs
+included), `erase ls`: what the manual makes of them.  From related states, under the side conditions `runPre` (decidable,
+evaluated along the SPEC's run): the MODEL runs - without leaving the transcription - over the first `k` lines, where `k` is
+all lines when the SPEC judges the program to its end and the lines in front of the one the manual does not cover otherwise, and
+ends in a state related to the SPEC's: same symbols with the SPEC's values, same cells, same counters, same error lines. -/
+theorem C10_lab_refine_lines (c : Cfg) (big : Bool) (ls : List Line) (m : M) (s : S) (i j : Nat)
+    (hR : Rel m s) (hpre : runPre c big s ls = true) :
+    ∃ k m', k ≤ ls.length ∧ AddrLabModel.run c m (ls.take k) j = (m', none) ∧
+      Rel m' (AddrLab.run big s (erase ls) i).1 ∧ ObsAgree m' (AddrLab.run big s (erase ls) i).1 ∧
+      ((AddrLab.run big s (erase ls) i).2 = none → k = ls.length) := by
+  obtain ⟨k, m', h1, h2, h3, h4⟩ := sim_run c big ls m s i j hR hpre
+  exact ⟨k, m', h1, h2, h3, h3.obs, h4⟩
+
+/-- **the SPEC's lines are the MODEL's lines seen through the manual**: for every source program, taking the opening lines of
+the constructs out of what `Produce_Code` sees (their labels stay behind on label-only lines) gives the expansion the manual
+describes. -/
+theorem C10_lab_lines (i : Nat) (prog : Nodes) (h : srcNodes prog = true) : erase (flatM i prog) = expandS i prog :=
+  erase_flatM i prog h
+
+/-- **MODEL refines SPEC, whole programs** (every program of the statement language: labelled lines, constructs nested to any
+depth with any number of iterations, PADDING, ORG, PHASE/DEPHASE, STRUCT/UNION bodies, data statements and reservations). -/
+theorem C10_lab_refine (c : Cfg) (big : Bool) (prog : Nodes) (m : M) (s : S) (hR : Rel m s) (hpre : Pre c big s prog = true) :
+    ∃ k m', k ≤ (flatM 0 prog).length ∧ AddrLabModel.run c m ((flatM 0 prog).take k) 0 = (m', none) ∧
+      ObsAgree m' (AddrLab.run big s (expandS 0 prog) 0).1 ∧
+      ((AddrLab.run big s (expandS 0 prog) 0).2 = none → k = (flatM 0 prog).length) := by
+  simp only [Pre, Bool.and_eq_true] at hpre
+  obtain ⟨k, m', h1, h2, _, h4, h5⟩ := C10_lab_refine_lines c big (flatM 0 prog) m s 0 0 hR hpre.2
+  rw [erase_flatM 0 prog hpre.1] at h4 h5
+  exact ⟨k, m', h1, h2, h4, h5⟩
+
+/-- **… judged to the end**: when the manual covers every line, the MODEL runs over the whole program and the observations
+agree. -/
+theorem C10_lab_refine_end (c : Cfg) (big : Bool) (prog : Nodes) (m : M) (s : S) (hR : Rel m s) (hpre : Pre c big s prog = true)
+    (hend : (AddrLab.run big s (expandS 0 prog) 0).2 = none) :
+    ∃ m', AddrLabModel.run c m (flatM 0 prog) 0 = (m', none) ∧ ObsAgree m' (AddrLab.run big s (expandS 0 prog) 0).1 := by
+  obtain ⟨k, m', _, h2, h3, h4⟩ := C10_lab_refine c big prog m s hR hpre
+  rw [h4 hend, List.take_length] at h2
+  exact ⟨m', h2, h3⟩
+
+/-- **label values**: every symbol the SPEC gives a value reads exactly that value in the MODEL, and the two define the same
+symbols. -/
+theorem C10_lab_refine_labels (c : Cfg) (big : Bool) (prog : Nodes) (m : M) (s : S) (hR : Rel m s) (hpre : Pre c big s prog = true)
+    (hend : (AddrLab.run big s (expandS 0 prog) 0).2 = none) :
+    ∃ m', AddrLabModel.run c m (flatM 0 prog) 0 = (m', none) ∧
+      (∀ k v, lookupS (AddrLab.run big s (expandS 0 prog) 0).1.syms k = some (some v) → lookup m'.syms k = some v) ∧
+      (∀ k, (lookup m'.syms k).isSome = (lookupS (AddrLab.run big s (expandS 0 prog) 0).1.syms k).isSome) := by
+  obtain ⟨m', h1, h2⟩ := C10_lab_refine_end c big prog m s hR hpre hend
+  exact ⟨m', h1, fun k v => SymsRel_lookup k v _ _ h2.syms, fun k => SymsRel_defined k _ _ h2.syms⟩
+
+/-- the start of a program: PADDING as the target has it, everything else empty -/
+theorem C10_lab_init (p : Bool) : Rel { padding := p } { padding := p } := Rel_init p
+
+/-! Non-vacuity of `C10_lab_refine` / `_end` / `_labels`: 68000, PADDING ON.
+`org $1001` / `N1: irp P,17,34` (body: `N?` none, `dc.w $1111`-like object; `dc.b P`) / `N2:` / `rept 2` (body: nested `irpc` with a `nop`) /
+`R9 struct` / `N3: dc.b ?` / `N4: dc.w ?,[2]?` / `R9 endstruct` / `N5: dc.l [2]?` / `padding off` / `N6: nop`.
+The precondition holds (with `fixStruct = true`: the field `N4` is moved behind a pad byte), the SPEC judges the program to its
+end, and the symbols read `N1 = $1002` (behind the pad byte), `N2 = $100A` (behind the pad byte in front of the first `nop` of the
+expansion), `R9_N3 = 0`, `R9_N4 = 2` (behind the reserved pad byte), `R9_LEN = 8`, `N5 = $100E`, `N6 = $1016`. -/
+def exLabProg : Nodes :=
+  .cons (.line none (.org 4097)) <|
+  .cons (.rep (some 1) [17, 34] (.cons (.line none (.obj [0x11, 0x11])) (.cons (.line none .pbyte) .nil))) <|
+  .cons (.line (some 2) .blank) <|
+  .cons (.rep none [0, 0] (.cons (.rep none [3] (.cons (.line none (.obj [0x4e, 0x71])) .nil)) .nil)) <|
+  .cons (.line none (.struct 9 false)) <|
+  .cons (.line (some 3) (.moto (.dc ⟨1, true, none⟩ (.cons .q .nil)))) <|
+  .cons (.line (some 4) (.moto (.dc ⟨2, true, none⟩ (.cons .q (.cons (.rep 2 .q) .nil))))) <|
+  .cons (.line none .endstruct) <|
+  .cons (.line (some 5) (.moto (.dc ⟨4, true, none⟩ (.cons (.rep 2 .q) .nil)))) <|
+  .cons (.line none (.padding false)) <|
+  .cons (.line (some 6) (.obj [0x4e, 0x71])) .nil
+
+def labCfg68k (fix : Bool) : Cfg := ⟨⟨2, true, true, false, true, true, true⟩, fix⟩
+def labCfg6809 : Cfg := ⟨⟨1, false, true, false, true, true, true⟩, false⟩
+
+example : Pre (labCfg68k true) true { padding := true } exLabProg = true := by decide
+example : (AddrLab.run true { padding := true } (expandS 0 exLabProg) 0).2 = none := by decide
+example : (AddrLab.run true { padding := true } (expandS 0 exLabProg) 0).1.syms =
+    [(⟨none, some 1⟩, some 4098), (⟨none, some 2⟩, some 4106), (⟨some 9, some 3⟩, some 0), (⟨some 9, some 4⟩, some 2),
+     (⟨some 9, none⟩, some 8), (⟨none, some 5⟩, some 4110), (⟨none, some 6⟩, some 4118)] := by decide
+example : (AddrLabModel.run (labCfg68k true) { padding := true } (flatM 0 exLabProg) 0).1.syms =
+    [(⟨none, some 1⟩, 4098), (⟨none, some 2⟩, 4106), (⟨some 9, some 3⟩, 0), (⟨some 9, some 4⟩, 2),
+     (⟨some 9, none⟩, 8), (⟨none, some 5⟩, 4110), (⟨none, some 6⟩, 4118)] := by decide
+
+/-! ### the side conditions are needed (and what they exclude)
+
+`preFresh`: a symbol defined twice has one entry in the MODEL's table (`EnterIntSymbol` overwrites) and two in the SPEC's list;
+`preOp`: an opening line that clears the label memory (`C10_lab_reset_keeps_pad_address`), a data statement without data inside a
+structure (outside the transcription), a Motorola data statement on which `Model/Data.lean` and `Spec/Data.lean` differ (C09's
+subject; witness below: a negative count of RMB); `preKnown`: the repaired finding `struct-field-symbol-keeps-pad-offset` (only with `fixStruct = false`). -/
+
+/-- `preKnown` is needed: `R9 struct` / `N3: dc.b ?` / `N4: dc.w ?` / `R9 endstruct` under PADDING ON with `LabelModify` as it was before
+the repair 0cba171 (`fixStruct = false`): the side condition fails at `N4`, the MODEL of that tree (repaired finding
+`struct-field-symbol-keeps-pad-offset`) leaves the symbol `R9_N4` at the offset of the pad byte, the SPEC says 2; with
+`fixStruct = true` (the tree as it is: the probe of the check answers so) the condition holds and MODEL = SPEC = 2. -/
+def exLabField : Nodes :=
+  .cons (.line none (.struct 9 false)) <|
+  .cons (.line (some 3) (.moto (.dc ⟨1, true, none⟩ (.cons .q .nil)))) <|
+  .cons (.line (some 4) (.moto (.dc ⟨2, true, none⟩ (.cons .q .nil)))) <|
+  .cons (.line none .endstruct) .nil
+
+theorem C10_lab_refine_hypothesis_needed_struct_field :
+    Pre (labCfg68k false) true { padding := true } exLabField = false ∧ Pre (labCfg68k true) true { padding := true } exLabField = true ∧
+    lookup (AddrLabModel.run (labCfg68k false) { padding := true } (flatM 0 exLabField) 0).1.syms ⟨some 9, some 4⟩ = some 1 ∧
+    lookupS (AddrLab.run true { padding := true } (expandS 0 exLabField) 0).1.syms ⟨some 9, some 4⟩ = some (some 2) ∧
+    lookup (AddrLabModel.run (labCfg68k true) { padding := true } (flatM 0 exLabField) 0).1.syms ⟨some 9, some 4⟩ = some 2 := by
+  decide
+
+/-- `preFresh` is needed: `N1:` / `dc.b 1`-like byte / `N1:`: one entry (`N1 = 1`, the later definition) in the MODEL, two in the SPEC -/
+theorem C10_lab_refine_hypothesis_needed_fresh :
+    Pre (labCfg68k false) true {} (.cons (.line (some 1) .blank) (.cons (.line none (.bytes [1])) (.cons (.line (some 1) .blank) .nil))) = false ∧
+    (AddrLabModel.run (labCfg68k false) {} [⟨0, some 1, .blank⟩, ⟨1, none, .bytes [1]⟩, ⟨2, some 1, .blank⟩] 0).1.syms = [(⟨none, some 1⟩, 1)] ∧
+    (AddrLab.run true {} [⟨0, some 1, .blank⟩, ⟨1, none, .bytes [1]⟩, ⟨2, some 1, .blank⟩] 0).1.syms =
+      [(⟨none, some 1⟩, some 0), (⟨none, some 1⟩, some 1)] := by
+  decide
+
+/-- `motoAgree` (in `preOp`) is needed: `N1: rmb -1` / `N2:` at address 0 (6809).  `DecodeMotoDFS` takes the count as a 16-bit `Word`
+and reserves 65535 bytes (`N2 = 65535`: the real assembler does, see the report); `Spec/Data.lean specStmt` refuses a negative
+count.  (Whether a data statement is accepted and what it lays is C09's subject; the refinement of the label machine takes the
+agreement on the statement as a precondition.) -/
+theorem C10_lab_refine_hypothesis_needed_data_agreement :
+    Pre labCfg6809 true {} (.cons (.line (some 1) (.moto (.dfs (-1)))) (.cons (.line (some 2) .blank) .nil)) = false ∧
+    (AddrLabModel.run labCfg6809 {} [⟨0, some 1, .moto (.dfs (-1))⟩, ⟨1, some 2, .blank⟩] 0).1.syms = [(⟨none, some 1⟩, 0), (⟨none, some 2⟩, 65535)] ∧
+    (AddrLabModel.run labCfg6809 {} [⟨0, some 1, .moto (.dfs (-1))⟩, ⟨1, some 2, .blank⟩] 0).1.errs = [] ∧
+    (AddrLab.run true {} [⟨0, some 1, .moto (.dfs (-1))⟩, ⟨1, some 2, .blank⟩] 0).1.syms = [(⟨none, some 1⟩, none), (⟨none, some 2⟩, some 0)] ∧
+    (AddrLab.run true {} [⟨0, some 1, .moto (.dfs (-1))⟩, ⟨1, some 2, .blank⟩] 0).1.errs = [0] := by
+  decide
+
+/-- **a statement of constants that lays no byte is aligned like any other**: `N1: dc.w [0]5` at `$1001` under PADDING ON - the
+pad byte `00` is *written* at `$1001` (`DecodeMotoDC`: `InsertPadding(1, False)`; the real assembler does, see the report), the
+label reads `$1002`, in MODEL and SPEC, and the statement meets the precondition of `C10_lab_refine`.  (Before the correction of
+`Spec/AddrLab.lean place` the SPEC took a statement without bytes for a reservation and noted no cell.) -/
+theorem C10_lab_zero_repeat_constant :
+    Pre (labCfg68k false) true { pc := 4097, padding := true }
+      (.cons (.line (some 1) (.moto (.dc ⟨2, true, none⟩ (.cons (.rep 0 (.int 5)) .nil)))) .nil) = true ∧
+    (AddrLabModel.run (labCfg68k false) { pc := 4097, padding := true } [⟨0, some 1, .moto (.dc ⟨2, true, none⟩ (.cons (.rep 0 (.int 5)) .nil))⟩] 0).1.cells
+      = [(4097, 0)] ∧
+    (AddrLab.run true { pc := 4097, padding := true } [⟨0, some 1, .moto (.dc ⟨2, true, none⟩ (.cons (.rep 0 (.int 5)) .nil))⟩] 0).1.cells = [(4097, 0)] ∧
+    (AddrLab.run true { pc := 4097, padding := true } [⟨0, some 1, .moto (.dc ⟨2, true, none⟩ (.cons (.rep 0 (.int 5)) .nil))⟩] 0).1.syms
+      = [(⟨none, some 1⟩, some 4098)] := by
+  decide
+
+/-! ### only the most recent label is adapted (upstream `tests/t_padding/t_padding.asm`, `label7:` / `label8: nop`)
+
+`dc.b 1` / `N1:` / `N2: nop` at `$1000`, PADDING ON: the statement's own label takes over the label memory; `N1` keeps the address
+of the pad byte, `N2` points at the instruction - in the MODEL (`LabelHandle` overwrites `pLabelEntry`) and in the SPEC; the
+program meets the precondition of `C10_lab_refine`.  (Before the correction of the SPEC this was counted as the finding
+`label-before-labelled-statement-names-pad-byte`.) -/
+def exLabRecent : Nodes :=
+  .cons (.line none (.org 4096)) <| .cons (.line none (.bytes [1])) <| .cons (.line (some 1) .blank) <|
+  .cons (.line (some 2) (.obj [0x4e, 0x71])) .nil
+
+theorem C10_lab_most_recent_label :
+    Pre (labCfg68k false) true { padding := true } exLabRecent = true ∧
+    (AddrLabModel.run (labCfg68k false) { padding := true } (flatM 0 exLabRecent) 0).1.syms = [(⟨none, some 1⟩, 4097), (⟨none, some 2⟩, 4098)] ∧
+    (AddrLab.run true { padding := true } (expandS 0 exLabRecent) 0).1.syms = [(⟨none, some 1⟩, some 4097), (⟨none, some 2⟩, some 4098)] ∧
+    (AddrLab.run true { padding := true } (expandS 0 exLabRecent) 0).1.cells = [(4096, 1), (4097, 0), (4098, 0x4e), (4099, 0x71)] := by
+  decide
+
+/-! ## whole programs of Motorola-style reservations -/
+
+/-- **MODEL refines SPEC on every program whose Motorola data statements are reservations** (`BYT/FCB`, `ADR/FDB`, `DC.x` with
+`?` / `[n]?` operands, any number of them; `DS.x`; labels, label-only lines, ORG, PHASE, PADDING, STRUCT/UNION bodies, constructs):
+the statement-level theorems `C10_moto_res_byt_adr` / `C10_moto_res_dc` / `C10_moto_res_model_eq_spec` discharge the data-statement
+side condition of `C10_lab_refine`, what remains (`PreRes`) is: symbols defined once (and, for `fixStruct = false` only, the
+repaired finding `struct-field-symbol-keeps-pad-offset` not hit). -/
+theorem C10_moto_res_refine (c : Cfg) (big : Bool) (prog : Nodes) (m : M) (s : S) (hR : Rel m s) (hpre : PreRes c big s prog = true) :
+    ∃ k m', k ≤ (flatM 0 prog).length ∧ AddrLabModel.run c m ((flatM 0 prog).take k) 0 = (m', none) ∧
+      ObsAgree m' (AddrLab.run big s (expandS 0 prog) 0).1 ∧
+      ((AddrLab.run big s (expandS 0 prog) 0).2 = none → k = (flatM 0 prog).length) := by
+  simp only [PreRes, Bool.and_eq_true] at hpre
+  exact C10_lab_refine c big prog m s hR (by simp only [Pre, Bool.and_eq_true]; exact ⟨hpre.1, runPre_of_res c big _ s hpre.2⟩)
+
+/-- the statement-level agreement used there, as a statement of its own: on a reservation statement `modelStmt` and `specStmt`
+agree in the sense of `motoAgree`, at every address and PADDING state -/
+theorem C10_moto_res_agree (c : Cfg) (big : Bool) (s : S) (st : Stmt) (h : resStmt st = true) : motoAgree c big s st = true :=
+  motoAgree_res c big s st h
+
+/-! Non-vacuity: 6809-style reservations (byte listing, big endian), PADDING ON at `$1001`: `N1: fdb [2]?,[3]?` / `N2:` /
+`N3: dc.w ?,[2]?` (a reserved pad byte in front: `N3 = $100C`, `N2` stays at `$100B`) / `R7 union` / `N4: fcb ?,?,?` / `N5: adr [2]?` /
+`R7 endunion` / `N6: ds.w 2`: `PreRes` holds, judged to the end, `R7_LEN = 4`. -/
+def exLabRes : Nodes :=
+  .cons (.line none (.org 4097)) <|
+  .cons (.line (some 1) (.moto (.adr (.cons (.rep 2 .q) (.cons (.rep 3 .q) .nil))))) <|
+  .cons (.line (some 2) .blank) <|
+  .cons (.line (some 3) (.moto (.dc ⟨2, true, none⟩ (.cons .q (.cons (.rep 2 .q) .nil))))) <|
+  .cons (.line none (.struct 7 true)) <|
+  .cons (.line (some 4) (.moto (.byt (.cons .q (.cons .q (.cons .q .nil)))))) <|
+  .cons (.line (some 5) (.moto (.adr (.cons (.rep 2 .q) .nil)))) <|
+  .cons (.line none .endstruct) <|
+  .cons (.line (some 6) (.dsx 2 2)) .nil
+
+example : PreRes labCfg6809 true { padding := true } exLabRes = true := by decide
+example : (AddrLab.run true { padding := true } (expandS 0 exLabRes) 0).2 = none ∧
+    (AddrLab.run true { padding := true } (expandS 0 exLabRes) 0).1.syms =
+      [(⟨none, some 1⟩, some 4097), (⟨none, some 2⟩, some 4107), (⟨none, some 3⟩, some 4108), (⟨some 7, some 4⟩, some 0),
+       (⟨some 7, some 5⟩, some 0), (⟨some 7, none⟩, some 4), (⟨none, some 6⟩, some 4114)] := by decide
 
 end AslModel.C10
